@@ -319,8 +319,26 @@ def run(ctx):
     # ---- A5 second-pass constraints -----------------------------------------------------------------------------
     a5 = ctx.rule("PROV.A5-constraints", "phone i may be active only within [sf[i], ef[i]] taken from the same phone entry (start, start+duration), compared for the HMM they act on; entering the next phone keeps the better score and carries the exit history", floor=8)
     f = sa["state_align_search_init"]
-    st = [(s["path"], f.canon(s["rhs"], subst=False)) for s in paths.stores(f) if s["path"] in ("sas->sf[i]", "sas->ef[i]")]
-    ctx.check(a5, st == [("sas->sf[i]", "ent->start"), ("sas->sf[i]", "0"), ("sas->ef[i]", "(ent->duration + ent->start)"), ("sas->ef[i]", "2147483647")], key(f, "bounds"), f.where(f.root), "phone bounds are %s" % st)
+    # bounds of phone i, path by path over values of one step of the phone loop (symx.loop_paths): start (0
+    # when not positive) and start + duration (unbounded when the duration is not positive) of entry i
+    from .. import symx as _sx
+    bl = [l for l in f.find("For") + f.find("While") if any(s_["path"] in ("sas->sf[i]", "sas->ef[i]") for s_ in paths.stores(f, l))]
+    okb, nb_ = len(bl) == 1, 0
+    st = []
+    if okb:
+        for pt in _sx.loop_paths(f, bl[0], P):
+            if pt.end != "next":
+                continue
+            nb_ += 1
+            sf_, ef_ = pt.stored("sas->sf[i]"), pt.stored("sas->ef[i]")
+            E = "alignment_iter_get(itor)"
+            ps_ = pt.atoms.get(("<", "0", "(%s)->start" % E))
+            pd_ = pt.atoms.get(("<", "0", "(%s)->duration" % E))
+            st.append((lin.p_str(sf_) if sf_ is not None else None, lin.p_str(ef_) if ef_ is not None else None, ps_, pd_))
+            okb = okb and sf_ is not None and ef_ is not None and ps_ is not None and pd_ is not None
+            if okb:
+                okb = sf_ == (lin.p_atom("(%s)->start" % E) if ps_ else {}) and ef_ == (lin.p_add(lin.p_atom("(%s)->start" % E), lin.p_atom("(%s)->duration" % E)) if pd_ else lin.p_const(2147483647))
+    ctx.check(a5, okb and nb_ >= 4, key(f, "bounds"), f.where(f.root), "phone bounds are %s" % sorted(set(st), key=str))
     hi = f.calls("hmm_init")
     ctx.check(a5, len(hi) == 1 and [f.canon(x, subst=False) for x in f.args(hi[0])] == ["sas->hmmctx", "&sas->hmms[i]", "0", "ent->id.pid.ssid", "ent->id.pid.tmatid"], key(f, "models"), f.where(f.root), "HMM i is not initialised from phone entry i")
     ev = [v for v in f.find("Var") if f.nodes[v]["name"] == "ent"]
@@ -339,7 +357,9 @@ def run(ctx):
     ctx.check(a5, len(nfv) == 1 and f.canon(f.ch(nfv[0])[0], subst=False) == "(1 + frame_idx)", key(f, "nf"), f.where(f.root), "next frame is not frame_idx + 1")
     f = sa["phone_transition"]
     conds = [paths.rel(f, cc, pol, subst=False) for (s0, d0, cc, pol) in f.cfg.cond_edges() if pol]
-    ctx.check(a5, ("nf", "<", "sas->sf[(1 + i)]") in conds, key(f, "start-bound"), f.where(f.root), "entry into phone i+1 is not held back by its own start bound sf[i+1] (conditions %s)" % conds)
+    en_ = f.calls("hmm_enter")
+    held = bool(en_) and all(paths.guarded(f, c_, lambda fn, cc, pol: paths.rel(fn, cc, pol, subst=False) == ("sas->sf[(1 + i)]", "<=", "nf")) for c_ in en_)
+    ctx.check(a5, held, key(f, "start-bound"), f.where(f.root), "entry into phone i+1 is not held back by its own start bound sf[i+1] (conditions %s)" % conds)
     en = f.calls("hmm_enter")
     ok = len(en) == 1 and [f.canon(x, subst=False) for x in f.args(en[0])] == ["nhmm", "newphone_score", "hmm->out_history", "nf"]
     if ok:
